@@ -168,41 +168,141 @@ Qed.
 Lemma in_all_meths a s m : In s (a_svcs a) -> In m (s_meths s) -> In m (all_meths a).
 Proof. intros. unfold all_meths. apply in_flat_map. eauto. Qed.
 
-Lemma bindings_go_inv a l : forall f b, incl l (a_svcs a) -> In b (bindings_go a f l) ->
-  (b = default_binding a /\ exists s, In s l /\ is_nil (s_ports s) = true) \/
-  (exists s, In s l /\ is_nil (s_ports s) = false /\ In b (port_bindings a s)).
+Definition ptnames (a : snap) : list text := dedup_t [] (flat_map (svc_ptnames a) (a_svcs a)).
+
+Lemma ptnames_has a s n : In s (a_svcs a) -> In n (svc_ptnames a s) -> In n (ptnames a).
 Proof.
-  induction l as [|s l IH]; simpl; intros f b INC H; [tauto|].
-  assert (incl l (a_svcs a)) as INC' by (intros x Hx; apply INC; right; auto).
-  destruct (is_nil (s_ports s)) eqn:E.
-  - apply in_app_iff in H as [H|H].
-    + destruct f; simpl in H; try tauto. destruct H as [<-|[]]. left. split; auto. exists s. auto.
-    + destruct (IH _ _ INC' H) as [[A (s' & B & C)]|(s' & A & B & C)].
-      * left. split; auto. exists s'. auto.
-      * right. exists s'. auto.
-  - apply in_app_iff in H as [H|H].
-    + right. exists s. auto.
-    + destruct (IH _ _ INC' H) as [[A (s' & B & C)]|(s' & A & B & C)].
-      * left. split; auto. exists s'. auto.
-      * right. exists s'. auto.
+  intros Hs Hn. unfold ptnames.
+  destruct (dedup_t_In (flat_map (svc_ptnames a) (a_svcs a)) [] n) as [[]|]; auto.
+  apply in_flat_map. eauto.
 Qed.
 
-Lemma bindings_go_has a l : forall f s, In s l ->
-  (is_nil (s_ports s) = false -> incl (port_bindings a s) (bindings_go a f l)) /\
-  (is_nil (s_ports s) = true -> f = true \/ In (default_binding a) (bindings_go a f l)).
+Lemma bindings_names a : map b_name (bindings a) = ptnames a.
+Proof. unfold bindings, ptnames. rewrite map_map. simpl. apply map_id. Qed.
+
+Lemma porttypes_names a : map pt_name (porttypes a) = ptnames a.
+Proof. unfold porttypes, ptnames. rewrite map_map. simpl. apply map_id. Qed.
+
+Lemma bindings_inv a b : In b (bindings a) ->
+  exists n, In n (ptnames a) /\ b = {| b_name := n; b_type := (a_tns a, n); b_ops := flat_map (bind_ops a n) (a_svcs a) |}.
+Proof. unfold bindings. intros H. apply in_map_iff in H as (n & <- & Hn). exists n. auto. Qed.
+
+Lemma bindings_has a n : In n (ptnames a) ->
+  In {| b_name := n; b_type := (a_tns a, n); b_ops := flat_map (bind_ops a n) (a_svcs a) |} (bindings a).
+Proof. intros H. unfold bindings. apply in_map_iff. exists n. auto. Qed.
+
+Lemma bind_ops_src a n s o : In o (bind_ops a n s) -> exists m, In m (s_meths s) /\ o = mk_bop a m.
 Proof.
-  induction l as [|s0 l IH]; simpl; intros f s Hs; [tauto|].
-  destruct Hs as [->|Hs].
-  - split; intros E; rewrite E.
-    + apply incl_appl, incl_refl.
-    + destruct f; auto. right. simpl. auto.
-  - destruct (is_nil (s_ports s0)) eqn:E0.
-    + destruct (IH true s Hs) as [A B]. split; intros E.
-      * apply incl_appr. auto.
-      * destruct f; auto. right. simpl. auto.
-    + destruct (IH f s Hs) as [A B]. split; intros E.
-      * apply incl_appr. auto.
-      * destruct (B E); auto. right. apply in_app_iff. auto.
+  unfold bind_ops. destruct (is_nil (s_ports s)).
+  - destruct (text_eqb (a_name a) n); simpl; [|tauto].
+    intros H. apply in_map_iff in H as (m & <- & Hm). eauto.
+  - intros H. apply in_flat_map in H as (p & _ & H).
+    destruct (text_eqb p n); simpl in H; [|tauto].
+    apply in_map_iff in H as (m & <- & Hm). apply filter_In in Hm as [Hm _]. eauto.
+Qed.
+
+Lemma bindings_ops_src a b o : In b (bindings a) -> In o (b_ops b) ->
+  exists m, In m (all_meths a) /\ o = mk_bop a m.
+Proof.
+  intros Hb Ho. apply bindings_inv in Hb as (n & _ & ->). simpl in Ho.
+  apply in_flat_map in Ho as (s & Hs & Ho). apply bind_ops_src in Ho as (m & Hm & ->).
+  exists m. split; auto. eapply in_all_meths; eauto.
+Qed.
+
+(** the method's own service hands its operation to the binding of its port type *)
+Lemma bind_ops_has a s m : check_ports a = true -> In s (a_svcs a) -> In m (s_meths s) ->
+  In (mk_bop a m) (bind_ops a (meth_pt a m) s).
+Proof.
+  intros CP Hs Hm. destruct (check_ports_pt a s m CP Hs Hm) as (_ & P2 & P3).
+  unfold bind_ops. destruct (is_nil (s_ports s)) eqn:E.
+  - unfold meth_pt. rewrite (P2 eq_refl). rewrite text_eqb_refl. apply in_map. auto.
+  - destruct (P3 eq_refl) as (p & Ep & Hp). unfold meth_pt. rewrite Ep.
+    apply in_flat_map. exists p. split; auto. rewrite text_eqb_refl.
+    apply in_map. apply filter_In. split; auto. unfold opt_is. rewrite Ep. apply text_eqb_refl.
+Qed.
+
+(** with no port type listed twice in a service, a service hands to the binding
+    named [n] exactly its methods of port type [n], in order *)
+Lemma flat_map_single {B} (g : text -> list B) n l : NoDup l -> In n l ->
+  flat_map (fun p => if text_eqb p n then g p else []) l = g n.
+Proof.
+  induction l as [|x l IH]; simpl; intros ND H; [tauto|].
+  inversion ND as [|? ? N ND']; subst.
+  destruct (text_eqb x n) eqn:E.
+  - apply text_eqb_eq in E. subst x.
+    assert (flat_map (fun p => if text_eqb p n then g p else []) l = []) as ->; [|apply app_nil_r].
+    clear -N. induction l as [|y l IH]; simpl; auto.
+    destruct (text_eqb y n) eqn:E.
+    + apply text_eqb_eq in E. subst. exfalso. apply N. left. auto.
+    + apply IH. intro. apply N. right. auto.
+  - simpl. destruct H as [->|H]; [rewrite text_eqb_refl in E; discriminate|]. auto.
+Qed.
+
+Lemma flat_map_none {B} (g : text -> list B) n l : ~ In n l ->
+  flat_map (fun p => if text_eqb p n then g p else []) l = [].
+Proof.
+  induction l as [|y l IH]; simpl; intros N; auto.
+  destruct (text_eqb y n) eqn:E.
+  - apply text_eqb_eq in E. subst. exfalso. apply N. left. auto.
+  - apply IH. intro. apply N. right. auto.
+Qed.
+
+Lemma filter_ext_in' {A} (p q : A -> bool) l : (forall x, In x l -> p x = q x) -> filter p l = filter q l.
+Proof.
+  induction l as [|x l IH]; simpl; intros H; auto.
+  rewrite (H x) by auto. rewrite IH by (intros; apply H; auto). reflexivity.
+Qed.
+
+Lemma filter_none {A} (p : A -> bool) l : (forall x, In x l -> p x = false) -> filter p l = [].
+Proof.
+  induction l as [|x l IH]; simpl; intros H; auto.
+  rewrite (H x) by auto. apply IH. intros; apply H; auto.
+Qed.
+
+Lemma bind_ops_exact a s n : check_ports a = true -> In s (a_svcs a) -> NoDup (s_ports s) ->
+  bind_ops a n s = map (mk_bop a) (filter (fun m => text_eqb (meth_pt a m) n) (s_meths s)).
+Proof.
+  intros CP Hs ND. unfold bind_ops. destruct (is_nil (s_ports s)) eqn:E.
+  - assert (forall m, In m (s_meths s) -> meth_pt a m = a_name a) as PT.
+    { intros m Hm. destruct (check_ports_pt a s m CP Hs Hm) as (_ & P2 & _).
+      unfold meth_pt. rewrite (P2 E). reflexivity. }
+    destruct (text_eqb (a_name a) n) eqn:En.
+    + f_equal. symmetry. rewrite (filter_ext_in' _ (fun _ => true)).
+      * clear. induction (s_meths s); simpl; congruence.
+      * intros m Hm. rewrite (PT m Hm). auto.
+    + rewrite filter_none; auto. intros m Hm. rewrite (PT m Hm). auto.
+  - assert (forall m, In m (s_meths s) -> exists p, me_port m = Some p /\ In p (s_ports s)) as PT.
+    { intros m Hm. destruct (check_ports_pt a s m CP Hs Hm) as (_ & _ & P3). apply P3. exact E. }
+    destruct (in_dec (list_eq_dec Z.eq_dec) n (s_ports s)) as [Hn|Hn].
+    + rewrite (flat_map_single (fun p => map (mk_bop a) (filter (fun m => opt_is (me_port m) p) (s_meths s))) n _ ND Hn).
+      f_equal. apply filter_ext_in'. intros m Hm. destruct (PT m Hm) as (p & Ep & _).
+      unfold opt_is, meth_pt. rewrite Ep. reflexivity.
+    + rewrite flat_map_none by auto. rewrite filter_none; auto.
+      intros m Hm. destruct (PT m Hm) as (p & Ep & Hp). unfold meth_pt. rewrite Ep.
+      apply text_eqb_neq. intros ->. contradiction.
+Qed.
+
+Lemma flat_map_map_filter {A B C} (f : B -> C) (p : B -> bool) (g : A -> list B) l :
+  flat_map (fun s => map f (filter p (g s))) l = map f (filter p (flat_map g l)).
+Proof.
+  induction l as [|x l IH]; simpl; auto.
+  rewrite IH. rewrite filter_app, map_app. reflexivity.
+Qed.
+
+Lemma flat_map_ext_in' {A B} (f g : A -> list B) l : (forall x, In x l -> f x = g x) -> flat_map f l = flat_map g l.
+Proof.
+  induction l as [|x l IH]; simpl; intros H; auto.
+  rewrite (H x) by auto. rewrite IH by (intros; apply H; auto). reflexivity.
+Qed.
+
+(** ... so the binding named [n] lists, in the same order, the operations of the
+    port type named [n] *)
+Lemma binding_ops_exact a n : check_ports a = true -> (forall s, In s (a_svcs a) -> NoDup (s_ports s)) ->
+  flat_map (bind_ops a n) (a_svcs a) =
+  map (mk_bop a) (filter (fun m => text_eqb (meth_pt a m) n) (all_meths a)).
+Proof.
+  intros CP ND. unfold all_meths. rewrite <- flat_map_map_filter.
+  apply flat_map_ext_in'. intros s Hs. apply bind_ops_exact; auto.
 Qed.
 
 (* ---------------------------------------------------------------- grouping by port type *)
@@ -245,7 +345,7 @@ Qed.
 Lemma op_matches_mk a m : op_matches (mk_ptop a m) (mk_bop a m).
 Proof. unfold op_matches. simpl. repeat split; auto. rewrite map_map. reflexivity. Qed.
 
-(* ---------------------------------------------------------------- the two theorems *)
+(* ---------------------------------------------------------------- the theorems *)
 Theorem wsdl_closed_thm perm a d :
   wsdl_of perm a = ROk d -> faults_in_tns a -> wsdl_closed d.
 Proof.
@@ -254,15 +354,6 @@ Proof.
             forall x, In x (map mg_name mm) -> In x (map mg_name (d_msgs d))) as DEF.
   { intros m Hm. destruct (all_msgs_In _ _ RAW m Hm) as (mm & A & B). exists mm. split; auto.
     intros x Hx. rewrite MS. eapply name_defined; eauto. }
-  assert (forall b o, In b (bindings a) -> In o (b_ops b) -> exists m, In m (all_meths a) /\ o = mk_bop a m) as BOPS.
-  { intros b o Hb Ho. apply bindings_go_inv in Hb; [|apply incl_refl].
-    destruct Hb as [[-> _]|(s & Hs & E & Hb)].
-    - simpl in Ho. apply in_map_iff in Ho as (m & <- & Hm). exists m. split; auto.
-      apply in_flat_map in Hm as (s & Hs & Hm). apply filter_In in Hs as [Hs _].
-      eapply in_all_meths; eauto.
-    - apply in_map_iff in Hb as (p & <- & Hp). simpl in Ho.
-      apply in_map_iff in Ho as (m & <- & Hm). apply filter_In in Hm as [Hm _].
-      exists m. split; auto. eapply in_all_meths; eauto. }
   unfold wsdl_closed, msg_defined. rewrite TNS, PT, BD, SV. repeat split.
   - apply in_map_iff in H as (n & <- & _). simpl in H0.
     apply in_map_iff in H0 as (m & <- & Hm). simpl. auto.
@@ -281,30 +372,15 @@ Proof.
     apply in_map_iff in H0 as (m & <- & Hm). apply filter_In in Hm as [Hm _]. simpl in H1.
     apply in_map_iff in H1 as (f0 & <- & Hf). simpl.
     destruct (DEF m Hm) as (mm & A & B). apply B. apply (meth_msgs_names _ _ A). auto.
-  - apply bindings_go_inv in H; [|apply incl_refl].
-    destruct H as [[-> _]|(s & Hs & E & Hb)]; simpl; auto.
-    apply in_map_iff in Hb as (p & <- & Hp). auto.
-  - unfold porttypes. rewrite map_map. simpl. rewrite map_id.
-    apply bindings_go_inv in H; [|apply incl_refl].
-    destruct H as [[-> (s & Hs & E)]|(s & Hs & E & Hb)].
-    + simpl. destruct (dedup_t_In (flat_map (svc_ptnames a) (a_svcs a)) [] (a_name a)) as [[]|]; auto.
-      apply in_flat_map. exists s. split; auto. unfold svc_ptnames. rewrite E. left; auto.
-    + apply in_map_iff in Hb as (p & <- & Hp). simpl.
-      destruct (dedup_t_In (flat_map (svc_ptnames a) (a_svcs a)) [] p) as [[]|]; auto.
-      apply in_flat_map. exists s. split; auto. unfold svc_ptnames. rewrite E. auto.
+  - apply bindings_inv in H as (n & _ & ->). auto.
+  - rewrite porttypes_names. apply bindings_inv in H as (n & Hn & ->). auto.
   - apply in_map_iff in H as (n & <- & _). simpl in H0.
     apply in_flat_map in H0 as (s0 & Hs0 & Hp). apply in_map_iff in Hp as (pn & <- & _). auto.
   - apply in_map_iff in H as (n & <- & _). simpl in H0.
     apply in_flat_map in H0 as (s0 & Hs0 & Hp). apply filter_In in Hs0 as [Hs0 _].
     apply in_map_iff in Hp as (pn & <- & Hpn). simpl.
-    destruct (bindings_go_has a (a_svcs a) false s0 Hs0) as [A B].
-    unfold svc_ptnames in Hpn. destruct (is_nil (s_ports s0)) eqn:E.
-    + destruct Hpn as [<-|[]]. destruct (B eq_refl) as [|HB]; try discriminate.
-      apply in_map_iff. exists (default_binding a). auto.
-    + apply in_map_iff. exists {| b_name := pn; b_type := (a_tns a, pn);
-                                  b_ops := map (mk_bop a) (filter (fun m => opt_is (me_port m) pn) (s_meths s0)) |}.
-      split; auto. apply (A eq_refl). unfold port_bindings. apply in_map_iff. exists pn. auto.
-  - destruct (BOPS _ _ H H0) as (m & Hm & ->). simpl in H1.
+    rewrite bindings_names. eapply ptnames_has; eauto.
+  - destruct (bindings_ops_src _ _ _ H H0) as (m & Hm & ->). simpl in H1.
     apply in_app_iff in H1 as [H1|H1]; unfold hdr_refs in H1.
     + destruct (me_inh m) as [hs|]; [|destruct H1].
       destruct (header_msg_name m in_header_suffix hs); [|destruct H1].
@@ -312,7 +388,7 @@ Proof.
     + destruct (me_outh m) as [hs|]; [|destruct H1].
       destruct (header_msg_name m out_header_suffix hs); [|destruct H1].
       apply in_map_iff in H1 as (h0 & <- & _). auto.
-  - destruct (BOPS _ _ H H0) as (m & Hm & ->). simpl in H1.
+  - destruct (bindings_ops_src _ _ _ H H0) as (m & Hm & ->). simpl in H1.
     destruct (DEF m Hm) as (mm & A & B). apply B.
     apply in_app_iff in H1 as [H1|H1]; unfold hdr_refs in H1.
     + destruct (me_inh m) as [hs|] eqn:E; [|destruct H1].
@@ -329,8 +405,6 @@ Theorem one_op_thm perm a d : wsdl_of perm a = ROk d -> one_op a d.
 Proof.
   intros H. apply wsdl_of_inv in H as (raw & RAW & CP & TNS & MS & SV & PT & BD).
   unfold one_op. rewrite PT, BD, TNS.
-  assert (map pt_name (porttypes a) = dedup_t [] (flat_map (svc_ptnames a) (a_svcs a))) as NM.
-  { unfold porttypes. rewrite map_map. simpl. apply map_id. }
   assert (forall m, In m (all_meths a) -> exists s, In s (a_svcs a) /\ In m (s_meths s)) as SM.
   { intros m Hm. apply in_flat_map in Hm. auto. }
   repeat split.
@@ -338,33 +412,53 @@ Proof.
     unfold pt_ops_of. apply group_perm.
     + apply dedup_t_NoDup.
     + intros m Hm. destruct (SM m Hm) as (s & Hs & Hms).
-      destruct (dedup_t_In (flat_map (svc_ptnames a) (a_svcs a)) [] (meth_pt a m)) as [[]|]; auto.
-      apply in_flat_map. exists s. split; auto. apply (check_ports_pt a s m CP Hs Hms).
-  - rewrite NM. apply dedup_t_NoDup.
+      eapply ptnames_has; eauto. apply (check_ports_pt a s m CP Hs Hms).
+  - rewrite porttypes_names. apply dedup_t_NoDup.
   - intros p o Hp Ho. apply in_map_iff in Hp as (n & <- & _). simpl in Ho.
     apply in_map_iff in Ho as (m & <- & Hm). apply filter_In in Hm as [Hm E].
     exists m. simpl. apply text_eqb_eq in E. auto.
   - intros m Hm. destruct (SM m Hm) as (s & Hs & Hms).
-    destruct (check_ports_pt a s m CP Hs Hms) as (P1 & P2 & P3).
-    destruct (bindings_go_has a (a_svcs a) false s Hs) as [A B].
-    destruct (is_nil (s_ports s)) eqn:E.
-    + destruct (B eq_refl) as [|HB]; try discriminate.
-      exists (default_binding a). split; [auto|]. split; [|split; [|apply op_matches_mk]].
-      * unfold meth_pt. rewrite (P2 eq_refl). reflexivity.
-      * simpl. apply in_map. apply in_flat_map. exists s. split; auto. apply filter_In. auto.
-    + destruct (P3 eq_refl) as (p & Ep & Hp).
-      exists {| b_name := p; b_type := (a_tns a, p);
-                b_ops := map (mk_bop a) (filter (fun m => opt_is (me_port m) p) (s_meths s)) |}.
-      split; [|split; [|split; [|apply op_matches_mk]]].
-      * apply (A eq_refl). unfold port_bindings. apply in_map_iff. exists p. auto.
-      * unfold meth_pt. rewrite Ep. reflexivity.
-      * simpl. apply in_map. apply filter_In. split; auto. unfold opt_is. rewrite Ep. apply text_eqb_refl.
-  - intros b o Hb Ho. apply bindings_go_inv in Hb; [|apply incl_refl].
-    destruct Hb as [[-> _]|(s & Hs & E & Hb)].
-    + simpl in Ho. apply in_map_iff in Ho as (m & <- & Hm). exists m. split; auto.
-      apply in_flat_map in Hm as (s & Hs & Hm). apply filter_In in Hs as [Hs _].
-      eapply in_all_meths; eauto.
-    + apply in_map_iff in Hb as (p & <- & Hp). simpl in Ho.
-      apply in_map_iff in Ho as (m & <- & Hm). apply filter_In in Hm as [Hm _].
-      exists m. split; auto. eapply in_all_meths; eauto.
+    eexists. split; [apply (bindings_has a (meth_pt a m))|split; [reflexivity|split; [|apply op_matches_mk]]].
+    + eapply ptnames_has; eauto. apply (check_ports_pt a s m CP Hs Hms).
+    + simpl. apply in_flat_map. exists s. split; auto. apply bind_ops_has; auto.
+  - intros b o Hb Ho. eapply bindings_ops_src; eauto.
+Qed.
+
+(** binding names are unique (services that share a port type share its binding) *)
+Theorem binding_unique_thm perm a d : wsdl_of perm a = ROk d ->
+  NoDup (map b_name (d_binds d)) /\ map b_name (d_binds d) = map pt_name (d_pts d).
+Proof.
+  intros H. apply wsdl_of_inv in H as (raw & RAW & CP & TNS & MS & SV & PT & BD).
+  rewrite BD, PT, bindings_names, porttypes_names. split; auto. apply dedup_t_NoDup.
+Qed.
+
+(** port types and bindings pair off: the i-th binding is the binding of the i-th
+    port type and lists, in the same order, one matching operation for each of its
+    operations -- so every exposed method is exactly one binding operation too *)
+Definition bind_matches (p : porttype) (b : binding) (tns : text) : Prop :=
+  b_name b = pt_name p /\ b_type b = (tns, pt_name p) /\ Forall2 op_matches (pt_ops p) (b_ops b).
+
+Lemma Forall2_map2 {A B C} (R : B -> C -> Prop) (f : A -> B) (g : A -> C) l :
+  (forall x, In x l -> R (f x) (g x)) -> Forall2 R (map f l) (map g l).
+Proof. induction l; simpl; intros H; constructor; auto. Qed.
+
+Theorem binding_ops_thm perm a d : wsdl_of perm a = ROk d ->
+  (forall s, In s (a_svcs a) -> NoDup (s_ports s)) ->
+  Forall2 (fun p b => bind_matches p b (d_tns d)) (d_pts d) (d_binds d) /\
+  Permutation (flat_map b_ops (d_binds d)) (map (mk_bop a) (all_meths a)).
+Proof.
+  intros H ND. pose proof (one_op_thm _ _ _ H) as (OP & _).
+  apply wsdl_of_inv in H as (raw & RAW & CP & TNS & MS & SV & PT & BD).
+  rewrite BD, TNS. rewrite PT in *. split.
+  - unfold porttypes, bindings. apply Forall2_map2. intros n _.
+    unfold bind_matches. simpl. repeat split.
+    rewrite (binding_ops_exact a n CP ND). unfold pt_ops_of.
+    apply Forall2_map2. intros m _. apply op_matches_mk.
+  - unfold bindings. rewrite flat_map_concat_map, map_map, <- flat_map_concat_map. simpl.
+    rewrite (flat_map_ext_in' _ (fun n => map (mk_bop a) (filter (fun m => text_eqb (meth_pt a m) n) (all_meths a)))).
+    + apply group_perm.
+      * apply dedup_t_NoDup.
+      * intros m Hm. apply in_flat_map in Hm as (s & Hs & Hms).
+        eapply ptnames_has; eauto. apply (check_ports_pt a s m CP Hs Hms).
+    + intros n _. apply binding_ops_exact; auto.
 Qed.
